@@ -49,6 +49,8 @@ pub struct C17 {
     id_bound: u16,
     /// payloads are supplied by closures that scribble over the whole buffer they are handed
     scribble: bool,
+    /// Maximum Packet Size announced by every CONNACK of the history (and of the brand-new session it is compared with)
+    max_packet: Option<u32>,
 }
 
 fn poll_until_blocked(bench: &Bench, conn: &mut Connection<'_, '_, VirtualIo>, id: usize) -> Option<Res> {
@@ -186,7 +188,27 @@ impl C17 {
             Built::Ran(b) => b,
             Built::Config(e) => panic!("machinery: {}", e),
         };
-        C17 { label: label.to_string(), tx, events, max_live, baseline, id_bound, scribble: false }
+        C17 { label: label.to_string(), tx, events, max_live, baseline, id_bound, scribble: false, max_packet: None }
+    }
+
+    fn connack(&self, session_present: bool) -> Vec<u8> {
+        connack(session_present, self.max_packet.map(|m| vec![mr::Prop { id: 0x27, val: mr::PVal::U32(m) }]).unwrap_or_default())
+    }
+
+    /// The same configuration under a broker that limits the packet size (the baseline is taken under the same limit).
+    pub fn with_max_packet(mut self, m: u32) -> C17 {
+        self.max_packet = Some(m);
+        let spec = Spec::plain(64, self.tx);
+        let ca = self.connack(false);
+        let tx = self.tx;
+        self.baseline = match with_session(&spec, |bench, s| {
+            let Conn::Ok(mut conn, id) = connect(bench, s, &ca) else { panic!("machinery: baseline connect failed") };
+            battery(bench, &mut conn, id, tx)
+        }) {
+            Built::Ran(b) => b,
+            Built::Config(e) => panic!("machinery: {}", e),
+        };
+        self
     }
 
     fn check_replay(written: &[u8], retained: &[Live], release: &[(u16, u8)], when: &str, viol: &mut Vec<(String, String)>) {
@@ -280,7 +302,7 @@ impl Model for C17 {
                     }
                 };
                 'conn: loop {
-                    let ca = connack(!first_conn, vec![]);
+                    let ca = self.connack(!first_conn);
                     let (mut conn, id) = match connect(bench, s, &ca) {
                         Conn::Ok(c, id) => (c, id),
                         // the CONNECT itself needs arena room (property C12's recorded finding): with the arena
@@ -486,7 +508,7 @@ impl Model for C17 {
                     } else {
                         // what would a resumed connection replay right now?
                         drop(conn);
-                        match connect(bench, s, &connack(true, vec![])) {
+                        match connect(bench, s, &self.connack(true)) {
                             Conn::Ok(mut conn2, id2) => {
                                 let before = bench.written(id2).len();
                                 let _ = poll_until_blocked(bench, &mut conn2, id2);
@@ -543,6 +565,8 @@ pub fn models(tier: Tier) -> Vec<C17> {
         C17::new("C17-arena-64-filling-payload", 64, &[1, 54], &[1, 2], true, 3, true, 0),
         // roomy arena, so that the eight in-flight slots (not the bytes) are the limit, with all request kinds
         C17::new("C17-arena-200-slot-limited-mixed-kinds", 200, &[0], &[1, 2, 3, 4], false, 3, true, 0),
+        // a broker that limits the packet size below the arena: requests refused as too large leave no trace either
+        C17::new("C17-arena-96-maximum-packet-size-40", 96, &[0, 7, 84], &[1, 2, 3], true, 3, false, 0).with_max_packet(40),
         // a QoS 0 publish whose fixed header is longer than that of the retained packets
         C17::new("C17-arena-400-long-header-scratch", 400, &[1, 140], &[1], true, 2, false, 0),
     ];
